@@ -273,6 +273,155 @@ fn key_check(what: &str, text: &str, presented: &str) -> Result<(bool, usize), S
     }
 }
 
+
+// ------------------------------------------------------------------------------------------------
+// what is (de)serialised, and whether addresses are recomputed or carried
+// ------------------------------------------------------------------------------------------------
+
+/// (derive list, named fields as (name, type) — tuple fields are named 0, 1, ..)
+fn struct_def(file: &syn::File, name: &str) -> Result<(Vec<String>, Vec<(String, String)>), String> {
+    for it in &file.items {
+        if let syn::Item::Struct(st) = it {
+            if st.ident == name {
+                let mut derives = vec![];
+                for a in &st.attrs {
+                    if a.path().is_ident("derive") {
+                        let t = compact(&toks(&a.meta));
+                        let inner = t.trim_start_matches("derive(").trim_end_matches(')');
+                        for d in inner.split(',') {
+                            let d = d.trim();
+                            if !d.is_empty() {
+                                derives.push(d.rsplit("::").next().unwrap_or(d).to_string());
+                            }
+                        }
+                    }
+                }
+                let fields = st
+                    .fields
+                    .iter()
+                    .enumerate()
+                    .map(|(i, f)| (f.ident.as_ref().map(|x| x.to_string()).unwrap_or_else(|| i.to_string()), compact(&toks(&f.ty))))
+                    .collect();
+                return Ok((derives, fields));
+            }
+        }
+    }
+    Err(format!("struct {name} not found"))
+}
+
+fn has_impl(file: &syn::File, trait_name: &str, ty: &str) -> bool {
+    file.items.iter().any(|it| match it {
+        syn::Item::Impl(i) => {
+            let t = i.trait_.as_ref().and_then(|(_, p, _)| p.segments.last()).map(|s| s.ident.to_string());
+            t.as_deref() == Some(trait_name) && compact(&toks(&i.self_ty)) == ty
+        }
+        _ => false,
+    })
+}
+
+struct WireShape {
+    pad_addr: bool,
+    reg_addr: bool,
+    chunk_off_wire: bool,
+    tx_addr: bool,
+    tx_ord: bool,
+}
+
+fn wire_shape(repo: &PathBuf) -> Result<WireShape, String> {
+    let names = |fs: &[(String, String)]| fs.iter().map(|f| f.0.clone()).collect::<Vec<_>>();
+    // ScratchpadAddress: on the wire inside every Scratchpad (derives Deserialize)
+    let f = parse_file(&repo.join("ant-protocol/src/storage/address/scratchpad.rs"))?;
+    let (d, fields) = struct_def(&f, "ScratchpadAddress")?;
+    if !d.contains(&"Deserialize".to_string()) {
+        return Err("ScratchpadAddress: no longer derives Deserialize".into());
+    }
+    let xn = text_of(&impl_fn(&f, "ScratchpadAddress", None, "xorname")?.block);
+    let pad_addr = if names(&fields) == ["owner"] && xn == "{XorName::from_content(&self.owner.to_bytes())}" {
+        true
+    } else if let Some(stored) = fields.iter().find(|(_, t)| t == "XorName") {
+        if xn == format!("{{self.{}}}", stored.0) {
+            false
+        } else {
+            return Err("ScratchpadAddress::xorname: shape not recognised".into());
+        }
+    } else {
+        return Err("ScratchpadAddress: fields / xorname() not recognised".into());
+    };
+    // Scratchpad itself
+    let f = parse_file(&repo.join("ant-protocol/src/storage/scratchpad.rs"))?;
+    let (d, fields) = struct_def(&f, "Scratchpad")?;
+    if !d.contains(&"Deserialize".to_string()) || names(&fields) != ["address", "data_encoding", "encrypted_data", "counter", "signature"] {
+        return Err("Scratchpad: serialised fields changed".into());
+    }
+    if text_of(&impl_fn(&f, "Scratchpad", None, "network_address")?.block) != "{NetworkAddress::ScratchpadAddress(self.address)}" {
+        return Err("Scratchpad::network_address: shape not recognised".into());
+    }
+    // RegisterAddress
+    let f = parse_file(&repo.join("ant-registers/src/address.rs"))?;
+    let (_, fields) = struct_def(&f, "RegisterAddress")?;
+    let xn = text_of(&impl_fn(&f, "RegisterAddress", None, "xorname")?.block);
+    let reg_addr = if names(&fields) == ["meta", "owner"]
+        && xn.contains("extend_from_slice(&self.meta.0);")
+        && xn.contains("extend_from_slice(&self.owner.to_bytes());")
+        && xn.ends_with("XorName::from_content(&bytes)}")
+    {
+        true
+    } else if let Some(stored) = fields.iter().find(|(n, t)| t == "XorName" && n != "meta") {
+        if xn == format!("{{self.{}}}", stored.0) {
+            false
+        } else {
+            return Err("RegisterAddress::xorname: shape not recognised".into());
+        }
+    } else {
+        return Err("RegisterAddress: fields / xorname() not recognised".into());
+    };
+    // Chunk: ChunkAddress carries a stored name, but it never comes off the wire: only `value` is serialised and
+    // deserialisation rebuilds the address from it
+    let f = parse_file(&repo.join("ant-protocol/src/storage/chunks.rs"))?;
+    let (d, _) = struct_def(&f, "Chunk")?;
+    let chunk_off_wire = if d.contains(&"Deserialize".to_string()) {
+        false
+    } else {
+        let ser = text_of(&impl_fn(&f, "Chunk", Some("Serialize"), "serialize")?.block);
+        let de = text_of(&impl_fn(&f, "Chunk", Some("Deserialize"), "deserialize")?.block);
+        let new = text_of(&impl_fn(&f, "Chunk", None, "new")?.block);
+        if ser == "{self.value.serialize(serialiser)}" && de.ends_with("Ok(Self::new(value))}") && new.contains("address:ChunkAddress::new(XorName::from_content(value.as_ref()))") {
+            true
+        } else {
+            return Err("Chunk: (de)serialisation shape not recognised".into());
+        }
+    };
+    // Transaction: no address on the wire; `address()` recomputes from the owner
+    let f = parse_file(&repo.join("ant-protocol/src/storage/transaction.rs"))?;
+    let (d, fields) = struct_def(&f, "Transaction")?;
+    let fa = parse_file(&repo.join("ant-protocol/src/storage/address/transaction.rs"))?;
+    let from_owner = text_of(&impl_fn(&fa, "TransactionAddress", None, "from_owner")?.block);
+    let addr = text_of(&impl_fn(&f, "Transaction", None, "address")?.block);
+    let tx_addr = if names(&fields) == ["owner", "parents", "content", "outputs", "signature"]
+        && addr == "{TransactionAddress::from_owner(self.owner)}"
+        && from_owner == "{Self(XorName::from_content(&owner.to_bytes()))}"
+    {
+        true
+    } else if let Some(stored) = fields.iter().find(|(_, t)| t == "TransactionAddress" || t == "XorName") {
+        if addr == format!("{{self.{}}}", stored.0) {
+            false
+        } else {
+            return Err("Transaction::address: shape not recognised".into());
+        }
+    } else {
+        return Err("Transaction: fields / address() not recognised".into());
+    };
+    // set semantics of `BTreeSet<Transaction>`: by value of every field iff Ord/PartialOrd/Eq are derived
+    let all_derived = ["Ord", "PartialOrd", "Eq", "PartialEq"].iter().all(|t| d.contains(&t.to_string()));
+    let any_manual = ["Ord", "PartialOrd", "Eq", "PartialEq"].iter().any(|t| has_impl(&f, t, "Transaction"));
+    let tx_ord = match (all_derived, any_manual) {
+        (true, false) => true,
+        (false, true) => false,
+        _ => return Err("Transaction: ordering / equality neither all derived nor hand-written".into()),
+    };
+    Ok(WireShape { pad_addr, reg_addr, chunk_off_wire, tx_addr, tx_ord })
+}
+
 /// the `match record_header.kind { .. }` of a routing function: (kind name, canonical arm body with helpers inlined)
 fn arms(file: &syn::File, f: &syn::ImplItemFn) -> Result<Vec<(String, String)>, String> {
     struct Find<'a>(Option<&'a syn::ExprMatch>);
@@ -577,7 +726,7 @@ pub fn generate(repo: &PathBuf) -> Result<String, String> {
     let carms = arms(&file, client)?;
     let rarms = arms(&file, repl)?;
 
-    let mut s = header("ant-node/src/put_validation.rs, ant-evm/src/data_payments.rs, evmlib/src/contract/payment_vault/mod.rs, ant-networking/src/record_store.rs, ant-networking/src/driver.rs, ant-networking/src/cmd.rs");
+    let mut s = header("ant-node/src/put_validation.rs, ant-evm/src/data_payments.rs, evmlib/src/contract/payment_vault/mod.rs, ant-networking/src/record_store.rs, ant-networking/src/driver.rs, ant-networking/src/cmd.rs, ant-protocol/src/storage/{scratchpad,transaction,chunks}.rs, ant-protocol/src/storage/address/*.rs, ant-registers/src/address.rs");
     s.push_str("namespace SafeNet.Gen.Validate\n");
     s.push_str("/-- `RecordKind` -/\ninductive Kind | chunkp | chunk | padp | pad | txp | tx | regp | reg\nderiving DecidableEq, Repr\n");
     s.push_str("/-- shapes of the match arms of the two routing functions -/\ninductive Branch | chunkPaid | rejectUnpaid | padPaid | padUpdate | txPaid | regUpdate | regPaid | rejectPaid | chunkRepl | padRepl | txRepl | regRepl\nderiving DecidableEq, Repr\n");
@@ -880,6 +1029,12 @@ pub fn generate(repo: &PathBuf) -> Result<String, String> {
     flag("storePutRefusesAtLimit", "`RecordStore::put`: `len >= max_value_bytes` ⇒ ValueTooLarge (true: `>=`)", put_refuses_at_limit);
     flag("storePutNeverStores", "`RecordStore::put` touches neither the index nor the cache nor the disk", put_never_stores);
     flag("storePutSilentOnBadHeader", "`RecordStore::put` returns Ok without an event when the header does not parse", put_header_err_silent);
+    let ws = wire_shape(repo)?;
+    flag("padAddressRecomputed", "`ScratchpadAddress` carries only the owner and `xorname()` hashes it (false: a stored name comes off the wire)", ws.pad_addr);
+    flag("regAddressRecomputed", "`RegisterAddress` carries meta + owner and `xorname()` hashes them", ws.reg_addr);
+    flag("chunkAddressOffWire", "`Chunk` serialises only its value and rebuilds the address when deserialised (the name stored in `ChunkAddress` never comes off the wire)", ws.chunk_off_wire);
+    flag("txAddressRecomputed", "`Transaction` has no address field; `address()` = `TransactionAddress::from_owner(owner)` = hash of the owner", ws.tx_addr);
+    flag("txOrdDerived", "`Transaction` derives Ord/PartialOrd/Eq/PartialEq: a `BTreeSet<Transaction>` distinguishes transactions by every field", ws.tx_ord);
     flag("closeCutAfterChain", "`get_closest_k_value_local_peers` = `once(self).chain(peers).take(K_VALUE)` (true) or `once(self).chain(peers.take(K_VALUE))` (false)", close_cut_after_chain);
     s.push_str(&format!("/-- libp2p-kad `K_VALUE` -/\ndef kValue : Nat := {kv}\n"));
     s.push_str(&format!("/-- `QUOTE_EXPIRATION_SECS` -/\ndef quoteExpirationSecs : Nat := {exp_secs}\n"));
